@@ -125,6 +125,8 @@ fn hex(b: &[u8]) -> String {
 }
 
 /// `code[at..]` must decode to exactly `want`, consuming `len` bytes.
+/// (The vp_check message must stay short: Kani prints `concat!("VP: ", msg)` over several lines when it is long
+/// and the driver then no longer recognises the "VP:" marker.)
 pub fn conclude(code: &[u8], at: usize, len: usize, want: Insn, fill_before: usize, fill_after: usize) {
     let got = if at <= code.len() { decode(&code[at..]) } else { None };
     crate::vp_note!(
@@ -143,7 +145,7 @@ pub fn conclude(code: &[u8], at: usize, len: usize, want: Insn, fill_before: usi
     if got != Some((want, len)) {
         crate::vp_note!("decoded {:?} / requested {:?} with length {}", got, want, len);
     }
-    crate::vp_check!(got == Some((want, len)), "returned => the emitted bytes decode to exactly the requested instruction and nothing else");
+    crate::vp_check!(got == Some((want, len)), "bytes decode to exactly the request");
 }
 /// single-instruction rows: everything that was emitted is the instruction
 pub fn finish(a: AssemblerX64, want: Insn) {
